@@ -93,6 +93,11 @@ func ParseName(name string) (NameInfo, error) {
 	if err != nil {
 		return empty, fmt.Errorf("timestamp parse error: %s", err)
 	}
+	// time.Parse is lenient (it accepts a sign in the fractional seconds, for
+	// example): only accept what NameTimestamp would have written.
+	if NameTimestamp(ts) != ni.TimestampString {
+		return empty, fmt.Errorf("invalid timestamp format: %s in %s", ni.TimestampString, name)
+	}
 	ni.Timestamp = ts
 	return ni, nil
 }
